@@ -667,7 +667,7 @@ emit("closed", channel.select({"|<-", cc}))
 -- handler functions
 emit("handler", channel.select({"|<-", a, function(ok, v) return "got" .. tostring(v) end}))
 -- payloads
-local ch = channel.make(4)
+local ch = channel.make(64) -- roomy: a payload that is wrongly accepted must not block the probe
 emit("fn", pcall(ch.send, ch, function() end))
 emit("ud", pcall(ch.send, ch, newud()))
 emit("thread", pcall(ch.send, ch, coroutine.create(function() end)))
